@@ -7,6 +7,7 @@
 package chainw
 
 import (
+	"testing"
 	"bytes"
 	"context"
 	"crypto/sha256"
@@ -849,3 +850,7 @@ func (e *env) finalChecks() {
 }
 
 var _ = simdisk.Impl
+
+func init() {
+	simkit.Register("chain", func(scratch string, t *testing.T) simkit.World { return &World{Scratch: scratch} })
+}
